@@ -1,7 +1,7 @@
 import sys, os, shutil, subprocess, re
 sys.path.insert(0, "/verif")
 from translator import reduce_c05
-FILES = ["sktime/forecasting/compose/_reduce.py", "sktime/forecasting/base/_sktime.py", "sktime/utils/datetime.py"]
+FILES = ["sktime/forecasting/compose/_reduce.py", "sktime/forecasting/base/_sktime.py", "sktime/utils/datetime.py", "sktime/forecasting/base/_base.py", "sktime/base/_base.py"]
 R = "sktime/forecasting/compose/_reduce.py"; S = "sktime/forecasting/base/_sktime.py"
 MUTS = [
  ("feat shifted by one", R, "Xt = Zt[:, :, :window_length]", "Xt = Zt[:, :, 1 : window_length + 1]"),
